@@ -26,4 +26,24 @@ PROPS = {
         ],
         "assumptions": ["Print Assumptions: see coverage.print_assumptions"],
     },
+    "C04": {
+        "propfile": "PropC04.v",
+        "n": {"quick": 1200, "thorough": 24000},
+        "corr": "rsl.GetLatestReferenceUpdaterEntry / GetFirst* / GetReferenceUpdaterEntriesInRangeForRef / "
+                "GetNonGittufParentReferenceUpdaterEntryForEntry vs get_latest / get_first_for_ref / get_range / get_nongittuf_parent",
+        "rule": "logs of 0-12 entries over 5 refs (3 in refs/gittuf/), all entry kinds, annotations with 1-4 targets incl. "
+                "duplicates, optional legacy unnumbered prefix; 25% with one corruption (extra parent, number gap/dup, garbage, "
+                "unnumbered-on-numbered); per log 6 option combinations for the latest reader (bounds drawn from the log's own ids "
+                "and numbers, invalid combinations included), 2 first-entry queries, 3 ranges, 1 non-gittuf-parent query, all in one "
+                "process so the rsl cache is shared. distinct = distinct (log, query); non-trivial = query with >=2 active "
+                "conditions or a corrupted log",
+        "theorems": ["C04_latest", "C04_first", "C04_range", "C04_fuel", "C04_chain_linked", "C04_fail_closed", "C04_first_match"],
+        "trusted": [
+            "the in-memory gitstore.Storer of the harness (genuine git object encodings via go-git; mirrors gitinterface conventions)",
+            "the harness's independent reader of the commit graph (does not use pkg/rsl) that prints the store as a Coq term",
+            "GetNonGittufParentReferenceUpdaterEntryForEntry is modelled and tied by correspondence only (no scan theorem yet); "
+            "GetFirstReferenceUpdaterEntryForCommit is not modelled",
+        ],
+        "assumptions": ["ids are numbered in creation order, so parents_older holds and fuel = |store|+1 suffices (C04_fuel)"],
+    },
 }
